@@ -217,6 +217,7 @@ def judge(case):
     if case.get("decoy"):
         _decoys.deadlocked_controller(case["decoy"], CellCycleController)     # same operation and resource ids, really deadlocked - elsewhere
         out.label("decoy")
+        _decoys.note(out)
     for rid, pre in case["res"]:
         ctrl.register_resource(ResourceLock(resource_id=rid, allow_preemption=pre))
     ops = OPS[:case["ops_n"]]
